@@ -1,13 +1,17 @@
 #!/bin/bash
-# dbgfacts.sh [diff]  -- write .cache/facts-debug.json for /repo (optionally with <diff> applied, reverted afterwards)
+# dbgfacts.sh [diff]  -- write .cache/facts-debug.json for a scratch copy of /repo (optionally with <diff> applied); /repo is not touched
+P=""; [ -n "$1" ] && P=$(realpath "$1")
 cd /verif
-[ -n "$1" ] && { git -C /repo apply "$1" || exit 1; }
-python3 - <<'PY'
+D=$(mktemp -d /tmp/arroy-dbg-XXXX)
+cp -r /repo/src /repo/Cargo.toml /repo/Cargo.lock "$D"/ ; [ -d /repo/examples ] && cp -r /repo/examples "$D"/; [ -d /repo/assets ] && cp -r /repo/assets "$D"/
+if [ -n "$1" ]; then (cd "$D" && patch -p1 -s < "$P") || { rm -rf "$D"; exit 1; }; fi
+python3 - "$D" <<'PY'
 import sys, json
 sys.path.insert(0, 'sa')
 import extract
-j = extract.extract('default')
+d = sys.argv[1]
+j = extract.extract('default', repo=d, manifest_dir=d)
 json.dump(j, open('.cache/facts-debug.json', 'w'))
 print('facts-debug.json written', len(j['fns']), 'fns')
 PY
-[ -n "$1" ] && git -C /repo checkout -- .
+rm -rf "$D"
